@@ -158,3 +158,66 @@ def set_alphabet(letters):
                                            for d in v.__defaults__)
                     n += 1
     return n
+
+
+# ---------------------------------------------------------------- arbitrary custom distance
+def str_eq_term(a, b):
+    """symbolic bool: strings a and b are equal (concrete lengths)."""
+    if len(a) != len(b):
+        return False
+    return so.b_and(*[so.eq(ord(a[i]), ord(b[i])) for i in range(len(a))])
+
+
+class ArbitraryDistance:
+    """Every admissible custom distance at once: a symmetric function of the two strings' CONTENT with
+    d(x, x) = 0 and otherwise one fresh non-negative symbolic real per unordered pair of known strings
+    (consistency between equal strings, positivity on distinct strings and the triangle inequality are imposed
+    as solver constraints - the function's documented precondition "must satisfy the 4 properties of distance").  Strings that are not among the
+    known ones (should not happen: engines only compare inputs) get a fresh value as well."""
+
+    def __init__(self, strings, name="cd"):
+        from vlib import sym
+        self.strings = list(strings)
+        n = len(self.strings)
+        self.D = [[0] * n for _ in range(n)]
+        for i in range(n):
+            for j in range(i + 1, n):
+                v = sym.sym_real(f"{name}_{i}_{j}", lo=0)
+                self.D[i][j] = self.D[j][i] = v
+        eqs = [[str_eq_term(self.strings[i], self.strings[j]) if i != j else True for j in range(n)] for i in range(n)]
+        for i in range(n):
+            for j in range(i + 1, n):
+                sym.assume(so.b_implies(eqs[i][j], so.eq(self.D[i][j], 0)))
+                for l in range(n):
+                    if l != i and l != j:
+                        sym.assume(so.b_implies(eqs[i][j], so.eq(self.D[i][l], self.D[j][l])))
+        # the documented precondition: a distance in the mathematical sense - positive on distinct strings and
+        # satisfying the triangle inequality (symmetry and d(x, x) = 0 hold by construction)
+        for i in range(n):
+            for j in range(i + 1, n):
+                sym.assume(so.b_or(eqs[i][j], so.gt(self.D[i][j], 0)))
+                for l in range(n):
+                    if l != i and l != j:
+                        sym.assume(so.le(self.D[i][j], so.add(self.D[i][l], self.D[l][j])))
+        self.calls = 0
+
+    def _find(self, s):
+        from crosshair.tracers import NoTracing
+        with NoTracing():
+            for i, t in enumerate(self.strings):
+                if s is t:
+                    return i
+        for i, t in enumerate(self.strings):
+            if len(s) == len(t) and s == t:          # forks on symbolic equality
+                return i
+        return None
+
+    def __call__(self, a, b):
+        self.calls += 1
+        i, j = self._find(a), self._find(b)
+        if i is None or j is None:
+            raise AssertionError("custom distance called on a string that is not an input sequence")
+        return self.D[i][j]
+
+    def value(self, i, j):
+        return self.D[i][j]
